@@ -20,6 +20,10 @@ C["C05"] = dict(
     text="all interleavings (state-pruned; preemption bound 2-3 for the largest scenarios) of 1-3 producers closing 1-3 streams each (real Stream.close: enqueue, then real wakeUpPeer with its fast path and the real send() loop for the slow path) with a consumer running the real handlePolling (drain, markNotWorking re-check) once per delivered polling event; oracle in every quiescent end state: receive queue empty",
     note="the event connection is a recording stub (each written polling event is delivered exactly once, in any order relative to the other threads); SC interleavings; producers<=3",
     technique=TECH_A, design="DESIGN.md section 4 C05")
+C["C03"] = dict(
+    text="sequential bounded-exhaustive enumeration of the configuration grid (memory sizes 0..64KiB/1MiB incl. degenerate ones, start offsets, all ordered lists of 1-3 (size,percent) pairs from boundary menus with sizes <= memory size): real createBufferManager either errors or yields classes whose slots are inside the mapping, behind their headers and pairwise disjoint; real mappingBufferManager on the same bytes reconstructs identical classes, capacities, offsets and cursors; patterns written through one view are read through the other; alloc-all/recycle-all restores the chain; queue pairs of every capacity are cross-wired; both real back-ends (/dev/shm file, memfd) with a second mapping as the peer",
+    note="no panic is tolerated (recovered and reported); the alloc/recycle round trip is skipped for configurations with duplicate class sizes and for classes with more than 4096 slots (layout arithmetic is still checked for every slot)",
+    technique="explicit enumeration of all configurations of a bounded grid on the real layout code with a reference interval/aliasing oracle", design="DESIGN.md section 4 C03")
 NA = {}
 m = {
     "version": 1,
